@@ -451,6 +451,14 @@ func (g *Gen) Txn() []AOp {
 		plans = append(plans, p)
 	}
 	var ops []AOp
+	// now and then several operations of the transaction work on the same existing row
+	// (accumulated updates, differences merged across operations)
+	if g.chance(0.3) {
+		t := tables[g.pick(len(tables))]
+		if us := g.uuidsOf(t); len(us) > 0 {
+			ops = append(ops, g.chain(t, us[g.pick(len(us))], pending)...)
+		}
+	}
 	for _, p := range plans {
 		o := AOp{Op: p.kind, Table: p.table}
 		switch p.kind {
@@ -462,6 +470,27 @@ func (g *Gen) Txn() []AOp {
 		case "update":
 			o.Where = g.where(p.table, pending)
 			o.Row = g.rowFor(p.table, false, pending)
+			// now and then rewrite some columns of one particular row with the values they already hold
+			// (sets in another element order) next to a real change
+			if us := g.uuidsOf(p.table); len(us) > 0 && g.chance(0.3) {
+				u := us[g.pick(len(us))]
+				o.Where = [][]interface{}{{"_uuid", "==", u, "atom"}}
+				tb := g.S.Tables[p.table]
+				for _, cn := range tb.ColNames() {
+					if _, set := o.Row[cn]; set || !tb.Cols[cn].Mut || !g.chance(0.4) {
+						continue
+					}
+					v := g.St[p.table][u][cn]
+					if a, ok := v.([]interface{}); ok && KindOf(tb.Cols[cn]) != "atom" && len(a) > 1 && g.chance(0.5) {
+						b := make([]interface{}, len(a))
+						for i := range a {
+							b[i] = a[len(a)-1-i]
+						}
+						v = b
+					}
+					o.Row[cn] = v
+				}
+			}
 		case "mutate":
 			o.Where = g.where(p.table, pending)
 			n := 1 + g.pick(2)
@@ -642,4 +671,96 @@ func (g *Gen) sabotage(ops *[]AOp, pending map[string][]string) {
 	out = append(out, bad)
 	out = append(out, (*ops)[pos:]...)
 	*ops = out
+}
+
+// chain builds 2-3 update / mutate operations on one existing row, selected
+// by uuid, touching overlapping columns (also sets with a bounded maximum,
+// within their bounds: the row's current value is known).
+func (g *Gen) chain(t, u string, pending map[string][]string) []AOp {
+	tb := g.S.Tables[t]
+	cur := map[string]int{} // current cardinality of set columns
+	for cn, v := range g.St[t][u] {
+		if a, ok := v.([]interface{}); ok {
+			cur[cn] = len(a)
+		}
+	}
+	var cols []string
+	for _, cn := range tb.ColNames() {
+		c := tb.Cols[cn]
+		if c.Mut && c.Min == 0 && (KindOf(c) == "set" || KindOf(c) == "map") {
+			cols = append(cols, cn)
+		}
+	}
+	where := [][]interface{}{{"_uuid", "==", u, "atom"}}
+	var out []AOp
+	n := 2 + g.pick(2)
+	// most steps work on one column: its differences are merged across the operations
+	focus := ""
+	if len(cols) > 0 {
+		focus = cols[g.pick(len(cols))]
+		// prefer a set with a bounded maximum when there is one
+		for _, cn := range cols {
+			if c := tb.Cols[cn]; KindOf(c) == "set" && c.Max > 1 && g.chance(0.5) {
+				focus = cn
+			}
+		}
+	}
+	for i := 0; i < n; i++ {
+		if len(cols) == 0 || g.chance(0.25) {
+			o := AOp{Op: "update", Table: t, Where: where, Row: g.rowFor(t, false, pending)}
+			for cn := range o.Row {
+				if a, ok := o.Row[cn].([]interface{}); ok {
+					cur[cn] = len(a)
+				}
+			}
+			o.Normalize()
+			out = append(out, o)
+			continue
+		}
+		cn := focus
+		if g.chance(0.3) {
+			cn = cols[g.pick(len(cols))]
+		}
+		c := tb.Cols[cn]
+		var m []interface{}
+		if KindOf(c) == "set" {
+			room := 3
+			if c.Max >= 0 {
+				room = c.Max - cur[cn]
+			}
+			if room >= 1 && g.chance(0.6) {
+				a := g.distinct(1, func() interface{} { return g.atom(c.Key, pending) })
+				m = []interface{}{cn, "insert", a, "set"}
+				cur[cn] += len(a)
+			} else {
+				ev, _ := g.St[t][u][cn].([]interface{})
+				a := ev
+				if len(a) > 1 {
+					a = a[:1]
+				}
+				if len(a) == 0 || g.chance(0.3) {
+					a = g.distinct(1, func() interface{} { return g.atom(c.Key, pending) })
+				}
+				m = []interface{}{cn, "delete", a, "set"}
+			}
+		} else {
+			if (c.Max < 0 || cur[cn] < c.Max) && g.chance(0.6) {
+				m = []interface{}{cn, "insert", g.value(Col{Key: c.Key, Val: c.Val, Min: 1, Max: 1}, pending), "col"}
+				cur[cn]++
+			} else {
+				ev, _ := g.St[t][u][cn].([]interface{})
+				if len(ev) > 1 {
+					ev = ev[:1]
+				}
+				if len(ev) == 0 {
+					ev = g.value(Col{Key: c.Key, Val: c.Val, Min: 1, Max: 1}, pending).([]interface{})
+				}
+				m = []interface{}{cn, "delete", ev, "col"}
+			}
+		}
+		o := AOp{Op: "mutate", Table: t, Where: where, Mutations: [][]interface{}{m}}
+		o.Normalize()
+		out = append(out, o)
+	}
+	return out
 }
